@@ -6,7 +6,7 @@
                        dangling_equiv, renumber_branches
      LT.RewriteSem     combine_series_equiv(_unchanged), combine_parallel_equiv(_unchanged),
                        perm_invariant, s_model_equiv, noisy_killed_equiv, dangling_removal_sound,
-                       renumber_iso, rewrite_preserves_phys,
+                       renumber_iso, rewrite_preserves_phys, series_combine_sound, parallel_combine_sound,
                        combine_series_refuted, perm_invariant_refuted, combine_parallel_refuted
    This file (compiled on every run) re-checks their axiom base, runs the
    executable model on the reproducers of DESIGN section 6 (F3, F4), and proves
@@ -124,6 +124,12 @@ Print Assumptions noisy_killed_equiv.
 Print Assumptions dangling_removal_sound.
 Print Assumptions renumber_iso.
 Print Assumptions rewrite_preserves_phys.
+Print Assumptions series_combine_sound.
+Print Assumptions parallel_combine_sound.
+Print Assumptions do_combine_shape.
+Print Assumptions s_model_L_source_refuted.
+Print Assumptions series_raw_nodes.
+Print Assumptions walk_wwalk.
 Print Assumptions switch_replace_noevent.
 Print Assumptions switch_before_refuted.
 Print Assumptions F3_model_order_V1_V2.
